@@ -404,6 +404,54 @@ def shapes_vs_model(r, ncase):
     return len(expect), dis
 
 
+def shape_helpers_vs_model(r, ncase):
+    """`common.set_axes` (int and tuple `axes`, 0-2 coefficient axes), `common.expand_shapes` (append / prepend) on the
+    real code vs the Lean definitions `Shp.setAxesFull` / `Shp.expandAppend` / `Shp.expandPrepend`"""
+    from epgpy import common
+
+    tok = lambda s: "-" if len(s) == 0 else "x".join(map(str, s))
+    lines, expect, inputs = [], [], []
+    for _ in range(ncase):
+        ndim = int(r.integers(0, 3))
+        nb = int(r.integers(0, 4))
+        shp = tuple(int(x) for x in r.integers(1, 5, size=nb)) + (3,) * ndim
+        if r.random() < 0.5:
+            kind, ax = "int", int(r.integers(0, 4))
+            axtok = str(ax)
+        else:
+            kind = "tuple"
+            n = nb if r.random() < 0.8 else int(r.integers(0, 4))
+            ax = tuple(int(x) for x in r.permutation(5)[:n])
+            if r.random() < 0.6:
+                ax = tuple(sorted(ax))
+            axtok = tok(ax)
+        if kind == "tuple" and len(set(ax)) == len(ax) and len(ax) != nb and len(ax) > 0:
+            pass  # a tuple that does not list every batch axis: numpy decides; still compared
+        try:
+            out = common.set_axes(ndim, np.zeros(shp), ax).shape
+            exp = "shape " + tok(out)
+        except Exception:
+            exp = "err"
+        lines.append(f"gsetax {ndim} {tok(shp)} {kind} {axtok}")
+        expect.append(exp); inputs.append({"fn": "set_axes", "ndim": ndim, "shape": shp, "axes": ax})
+        mode = "append" if r.random() < 0.5 else "prepend"
+        s1 = tuple(int(x) for x in r.integers(1, 5, size=int(r.integers(0, 4))))
+        s2 = tuple(int(x) for x in r.integers(1, 5, size=int(r.integers(0, 5))))
+        o1, o2 = common.expand_shapes(s1, s2, append=(mode == "append"))
+        nd = max(len(s1), len(s2))
+        for si, oi in ((s1, o1), (s2, o2)):
+            lines.append(f"gexpand {mode} {nd} {tok(si)}")
+            expect.append("shape " + tok(tuple(oi))); inputs.append({"fn": "expand_shapes", "mode": mode, "shape": si, "ndim": nd})
+    out = lib.run_driver(lines)
+    dis = []
+    for exp, got, inp in zip(expect, out, inputs):
+        if exp != got.strip():
+            dis.append({"kind": "c07-shape-helpers", "problems": [("epgpy vs the Lean model", exp, got)], "input": inp})
+    if len(out) != len(expect):
+        dis.append({"kind": "c07-shape-helpers", "problems": [("driver lines", len(out), len(expect))], "input": {}})
+    return len(expect), dis
+
+
 def ndim_mismatch_sweep(r, epg):
     """deterministic sweep: every differentiable operator, every ordered pair of its parameters given as arrays
     with different numbers of axes ((n,) and (n,m)), all derivatives on: vectorised vs scalar at every index"""
